@@ -9,6 +9,7 @@
    the only way to open an AEAD box or check a signature is the computation rule
    below.  No proofs in this file. *)
 From Coq Require Import List NArith Bool.
+From Verif Require c08.Model.   (* crypto/pb PublicKey codec: parse_pubkey follows proto.Unmarshal byte for byte *)
 Import ListNotations.
 Local Open Scope N_scope.
 
@@ -23,13 +24,22 @@ Inductive nt :=
 | NH (h d : nt)                       (* SHA256(h || d) *)
 | NKdf (ck ikm : nt) (i : N)          (* i-th output of HKDF(ck, ikm) *)
 | NEnc (k : nt) (n : N) (ad pt : nt)  (* ChaChaPoly seal under key k, nonce n, associated data ad *)
-| NPub (k : N)                        (* marshalled libp2p public key of identity key k *)
+| NPub (k : N)                        (* marshalled libp2p public key of identity key k (canonical: crypto.MarshalPublicKey) *)
+| NKeyBytes (kb : list N)             (* any other concrete byte string put where a marshalled public key belongs *)
 | NSig (k : N) (m : nt) (r : N)       (* signature by identity key k on m (r: randomness/encoding) *)
 | NCat (a b : nt)                     (* a ++ b *)
 | NPayload (key sig : nt) (ext : N).  (* protobuf NoiseHandshakePayload{identity_key, identity_sig, extensions} *)
 
+Fixpoint nlist_eqb (a b : list N) : bool :=
+  match a, b with
+  | [], [] => true
+  | x :: r, y :: t => (x =? y) && nlist_eqb r t
+  | _, _ => false
+  end.
+
 Fixpoint nt_eqb (a b : nt) : bool :=
   match a, b with
+  | NKeyBytes x, NKeyBytes y => nlist_eqb x y
   | NB x, NB y => x =? y
   | NJunk x, NJunk y => x =? y
   | NEmpty, NEmpty => true
@@ -145,17 +155,34 @@ Definition honest_payload (k s r ext : N) : nt :=
 Definition id_of_key (pub : nt) : option N :=
   match pub with NPub k => Some k | _ => None end.
 
+(* crypto.UnmarshalPublicKey: proto.Unmarshal into pb.PublicKey (c08's parse_pubkey: unknown
+   fields skipped, any field order, non-minimal varints accepted), then the key for that
+   (Type, Data).  Toy key material: identity key k is the Ed25519 (Type 1) key with Data = [k].
+   The canonical serialization of key k is NPub k; every other serialization is an NKeyBytes. *)
+Definition key_type_toy : N := 1.
+Definition canonical_key_bytes (k : N) : list N := c08.Model.marshal_pubkey key_type_toy [k].
+Definition unmarshal_key (t : nt) : option N :=
+  match t with
+  | NPub k => Some k
+  | NKeyBytes b =>
+      match c08.Model.parse_pubkey b with
+      | Some (kt, [d]) => if kt =? key_type_toy then Some d else None
+      | _ => None
+      end
+  | _ => None
+  end.
+
 (* handleRemoteHandshakePayload, line by line *)
 Definition handle_payload (p : party) (payload remote_static : nt) : (N * nt) + N :=
   match payload with
   | NPayload idkey sg _ =>                       (* proto.Unmarshal *)
-      match id_of_key idkey with                 (* UnmarshalPublicKey ; IDFromPublicKey *)
-      | None => inr E_KEY
-      | Some id =>
+      match unmarshal_key idkey with             (* remotePubKey := UnmarshalPublicKey(bytes) ;            *)
+      | None => inr E_KEY                        (* id := peer.IDFromPublicKey(remotePubKey): the ID of the *)
+      | Some id =>                               (* KEY (its canonical serialization), not of the bytes      *)
           if p_check p && negb (match p_expect p with Some x => x =? id | None => false end)
           then inr E_PEERID                      (* s.checkPeerID && s.remoteID != id *)
-          else if sig_verify idkey (NCat PREFIX remote_static) sg
-               then inl (id, idkey)              (* s.remoteID = id ; s.remoteKey = remotePubKey *)
+          else if sig_verify (NPub id) (NCat PREFIX remote_static) sg
+               then inl (id, NPub id)            (* s.remoteID = id ; s.remoteKey = remotePubKey *)
                else inr E_SIG
       end
   | _ => inr E_KEY
@@ -356,7 +383,10 @@ Inductive edit :=
 | ESplice (m : msgix).                          (* replaced by the same message of a second session *)
 
 (* a cooperating malicious endpoint: what it puts into its handshake payload *)
-Inductive claim := ClKey (k : idk) | ClJunk | ClEmpty.
+(* non-canonical but valid serializations of a public key: an unknown field appended, the two
+   fields in the other order, the Type varint in non-minimal form *)
+Inductive alias := AUnknownField | AReordered | ANonMinimal.
+Inductive claim := ClKey (k : idk) | ClJunk | ClEmpty | ClAlias (k : idk) (a : alias).
 Inductive smsg := SmGood | SmOtherStatic | SmNoPrefix.
 Inductive fsig := FsBy (k : idk) (m : smsg) | FsJunk | FsEmpty.
 Record forge := mkForge { f_init : bool; f_claim : claim; f_sig : fsig }.
@@ -367,8 +397,18 @@ Record fault := mkFault { ft_init : bool; ft_stage : fstage }.
 Record scenario := mkSc { sc_i : side; sc_r : side; sc_edit : edit; sc_forge : option forge;
                           sc_fault : option fault }.
 
+Definition alias_bytes (a : alias) (k : N) : list N :=
+  match a with
+  | AUnknownField => canonical_key_bytes k ++ c08.Protobuf.put_varint_field 15 7
+  | AReordered => c08.Protobuf.put_len_field 2 [k] ++ c08.Protobuf.put_varint_field 1 key_type_toy
+  | ANonMinimal => [8; 128 + key_type_toy; 0] ++ c08.Protobuf.put_len_field 2 [k]
+  end.
+
 Definition forged_payload (f : forge) (s : N) : nt :=
-  let k := match f_claim f with ClKey k => NPub (idn k) | ClJunk => NJunk 910 | ClEmpty => NEmpty end in
+  let k := match f_claim f with
+           | ClKey k => NPub (idn k) | ClJunk => NJunk 910 | ClEmpty => NEmpty
+           | ClAlias k a => NKeyBytes (alias_bytes a (idn k))
+           end in
   let sg := match f_sig f with
             | FsBy k SmGood => NSig (idn k) (NCat PREFIX (NDhPub s)) 1
             | FsBy k SmOtherStatic => NSig (idn k) (NCat PREFIX (NDhPub 99)) 1
